@@ -1,9 +1,60 @@
 import QecVerif.Model.DriverLattice
+import QecVerif.Model.Lattice.Toric
 namespace Qec.Drv
 open Qec Qec.Wire
 
-/-- driver ops of the toric family (filled in by the family's model) -/
+def parsePairs3? (s : String) : Option (List ((Int × Int × Int) × (Int × Int × Int))) :=
+  if s == "_" then some [] else
+  (s.splitOn ";").mapM fun p =>
+    match p.splitOn ">" with
+    | [a, b] => do let a ← parseIdx3? a; let b ← parseIdx3? b; pure (a, b)
+    | _ => none
+
+/-- sizes on the wire are accepted sizes only (rows, cols ≥ 2): the model's `%` needs positive moduli -/
+def parseSize? (r c : String) : Option (Int × Int) := do
+  let r ← parseInt? r; let c ← parseInt? c
+  if r < 2 || c < 2 then none else pure (r, c)
+
+/-- driver ops of the toric family -/
 def toric : List String → Option String
+  | ["ctor", r, c] => do let r ← parsePyVal? r; let c ← parsePyVal? c; pure (showCtor (Toric.ctor r c))
+  | ["nkd", r, c] => do
+      let (r, c) ← parseSize? r c
+      let (n, k, d) := Toric.nkd r c; pure s!"{n} {k} {d}"
+  | ["stabs", r, c] => do let (r, c) ← parseSize? r c; pure (showMat (Toric.stabilizers r c))
+  | ["lx", r, c] => do let (r, c) ← parseSize? r c; pure (showMat (Toric.logicalXs r c))
+  | ["lz", r, c] => do let (r, c) ← parseSize? r c; pure (showMat (Toric.logicalZs r c))
+  | ["plaqidx", r, c] => do let (r, c) ← parseSize? r c; pure (showIdx3List (Toric.indices r c))
+  | ["flat", r, c, i] => do
+      let (r, c) ← parseSize? r c; let i ← parseIdx3? i; pure (toString (Toric.flatten r c i))
+  | ["opat", r, c, v, i] => do
+      let (r, c) ← parseSize? r c; let v ← parseBits? v; let i ← parseIdx3? i
+      if v.length != 2 * (Toric.nQubits r c).toNat then none
+      else pure (String.singleton (Toric.operator r c v i).toChar)
+  | ["site", r, c, op, i] => do
+      let (r, c) ← parseSize? r c; let i ← parseIdx3? i
+      let op ← (match op.toList with | [ch] => P1.ofChar? ch | _ => none)
+      pure (showBits (Toric.site r c op (Toric.identity r c) i))
+  | ["plaq", r, c, i] => do
+      let (r, c) ← parseSize? r c; let i ← parseIdx3? i
+      pure (showBits (Toric.plaquette r c (Toric.identity r c) i))
+  | ["trans", r, c, a, b] => do
+      let (r, c) ← parseSize? r c; let a ← parseIdx3? a; let b ← parseIdx3? b
+      match Toric.translation r c a b with
+      | .ok t => pure (showIdx t) | .error _ => pure "IndexError"
+  | ["path", r, c, a, b] => do
+      let (r, c) ← parseSize? r c; let a ← parseIdx3? a; let b ← parseIdx3? b
+      pure (showExB (Toric.path r c (Toric.identity r c) a b))
+  | ["dist", r, c, a, b] => do
+      let (r, c) ← parseSize? r c; let a ← parseIdx3? a; let b ← parseIdx3? b
+      match Toric.distance r c a b with
+      | .ok d => pure (toString d) | .error _ => pure "IndexError"
+  | ["s2p", r, c, s] => do
+      let (r, c) ← parseSize? r c; let s ← parseBits? s
+      pure (showIdx3List (Toric.syndromeToPlaquettes r c s))
+  | ["mates", r, c, m] => do
+      let (r, c) ← parseSize? r c; let m ← parsePairs3? m
+      pure (showExB (Toric.applyMates r c m))
   | _ => none
 
 end Qec.Drv
